@@ -28,6 +28,12 @@ mod imptree;
 mod camtgen;
 mod c18;
 mod c15;
+mod child;
+mod parseobs;
+mod pgen;
+mod c05;
+mod c06;
+mod c14;
 
 pub struct Opts {
     pub seed: u64,
@@ -43,6 +49,18 @@ fn main() {
     if args.len() < 2 {
         eprintln!("usage: okv <property> [--seed N] [--tier quick|thorough] [--out DIR] [--shards N] [--corpus DIR]");
         std::process::exit(2);
+    }
+    if args[1] == "__child" {
+        // hidden subcommand: run the implementation on a batch of inputs (see child.rs)
+        c05::install_panic_capture();
+        child::child_main(&args[2..], &|mode, input| match mode {
+            "c05" => c05::child_observe(input),
+            "c06" => c06::child_observe(input),
+            "c06load" => c06::child_load(input),
+            "c14" => c14::child_observe(input),
+            _ => "{\"harness_error\":\"unknown mode\"}".to_string(),
+        });
+        return;
     }
     let prop = args[1].to_lowercase();
     let mut o = Opts {
@@ -105,6 +123,9 @@ fn main() {
         "c10" => c10::run(&o),
         "c18" => c18::run(&o),
         "c15" => c15::run(&o),
+        "c05" => c05::run(&o),
+        "c06" => c06::run(&o),
+        "c14" => c14::run(&o),
         _ => {
             eprintln!("unknown property {}", prop);
             std::process::exit(2);
